@@ -397,7 +397,7 @@ def check_cases_stage(work, v, findings, prop, harness, acc, module, fn, n, dept
         acc["samples"].append(dict(kind="validated-random-case", function=fn, input=c["in"], observed=c["out"]))
 
 
-def sm_check(work, v, prop, tier, tables, traces, fields, design_props, note, frames=(), ctraces=(), gens=(), rands=()):
+def sm_check(work, v, prop, tier, tables, traces, fields, design_props, note, frames=(), ctraces=(), gens=(), rands=(), extra_cov=None):
     findings = Findings()
     harness = lib.build_harness(work)
     acc = dict(states=0, transitions=0, generated=0, traces=0, evaluations=0, trace_events=0,
@@ -442,6 +442,7 @@ def sm_check(work, v, prop, tier, tables, traces, fields, design_props, note, fr
         observables_compared=fields, design_properties_checked_by_tlc=design_props,
         methods_enumerated_by_reflection=sorted(acc.get("methods", [])),
         explanation=note)
+    v.cov.update(extra_cov or {})
     v.assumptions = [
         "exhaustive only within the stated constants; beyond them coverage is seeded-random and validated, not exhaustive",
         "harness concretiser/projector tables (value name <-> Go value) and the VerifDump hook are trusted",
@@ -498,11 +499,18 @@ def c03(work, v, tier):
                   ("nocap", dict(Caps=[0], MaxLen=4, Kinds=["AND", "OR", "NOT", "LIST", "BASIC"], Fams=["grow", "marshal"], depth=3, walks=500)),
                   ("cap-nn", dict(Caps=[2, 3, 4], Vals=["a", "b", "S", "A"], MaxLen=4, InitOpts=[["nnest"], []], Fams=["grow"], PushLens=[2, 3, 4], depth=2, walks=2000, wlen=40))]
         traces.append(("boundary", dict(traces=1000, len=120, fams=["list", "transfer", "marshal"], caps="1,2,3", maxlen=6, salt=2)))
+    # the integer core: IndInv (CapInv /\ CapObs) is inductive for EVERY capacity and length (Apalache, unbounded
+    # integers); Stackage.tla's StepProps ties each of its transitions to a CapCore step (CapRefines)
+    core = [lib.apalache(work, "capcore-init", "CapCore", "Init", "IndInv", 0),
+            lib.apalache(work, "capcore-step", "CapCore", "IndInit", "IndInv", 1)]
     return sm_check(work, v, "C03", tier, tables, traces, C03_FIELDS,
                     ["CapInv (Len <= cap in every reachable state of both handles)", "CapObs (Cap/Avail/IsFull agree with (cap, Len))",
-                     "StepProps: no enabled transition leaves a state with Len > cap; Insert on a full stack is a stutter"],
+                     "StepProps: no enabled transition leaves a state with Len > cap; Insert on a full stack is a stutter",
+                     "CapRefines: the (Len, cap) projection of every transition is a step of CapCore.tla, whose invariant "
+                     "Apalache proves inductive over unbounded integers (Init => IndInv; IndInv /\\ Next => IndInv')"],
                     "capacity: all growth actions (Push batches, Insert, Transfer-into, Marshal-into) interleaved with "
-                    "Pop/Remove/Reset around the boundary; Len/Cap/Avail/IsFull and the raw slots compared after every step")
+                    "Pop/Remove/Reset around the boundary; Len/Cap/Avail/IsFull and the raw slots compared after every step",
+                    extra_cov=dict(unbounded_integer_core=core))
 
 
 C08_FIELDS = [f for f in ALL_FIELDS if f != "cannest"]
